@@ -109,4 +109,13 @@ CHECKS["C02"] = {
     "note": "Root discipline of the ~400 natives is not proved, only exercised; a premature reclamation is visible only if the object is used afterwards in a way that changes value, console text or error class. No stale-handle monitor (hook H1 of the design) was built.",
     "design_ref": "DESIGN.md §4 C02",
 }
+CHECKS["C19"] = {
+    "technique": "Lean 4 proof over M-Run (the two result-mapping copies agree; running in one go equals any chunking into steps) + source re-read of both Rust copies on every run + five-entry-point and three-role transcript comparison",
+    "text": "map_result_eq (run_vm_to_completion and process_vm_result map every terminal VM result and ledger state alike), run_eq_steps/single_steps_eq_run (for every deterministic VM, every partition of the run into chunks with pauses - "
+            "one instruction at a time included - ends in the same state/result) and terminal_stable are Lean theorems. On every run the two Rust match blocks are re-extracted from src/interpreter/mod.rs and must be textually identical "
+            "(so one transcription covers both). Generated scripts, entry modules, import graphs and order-issuing programs go through eval, prepare+step, step with interleaved API reads and collect(), C API tsrun_run and C API tsrun_step; "
+            "transcripts (import requests, order traffic with payloads, result, exports, console) must be equal; generated modules must behave identically as entry program, provided dependency and internal source module.",
+    "note": "The VM is an abstract deterministic step function in the model; the three export-wiring functions and the C API glue are not modelled, only compared by transcripts.",
+    "design_ref": "DESIGN.md §4 C19",
+}
 NOT_YET = {}
